@@ -428,7 +428,10 @@ impl<'a> Gen<'a> {
         for i in 0..n {
             let w = self.words.next(self.rng, false);
             let w2 = self.words.next(self.rng, false);
-            let l = match self.rng.below(8) {
+            let l = match self.rng.below(10) {
+                // lines that end in, or consist of, spaces are part of the code (fenced blocks only: see below)
+                8 => format!("{}  ", w),
+                9 if i > 0 && i + 1 < n => "  ".to_string(),
                 0 => format!("# {}", w),
                 1 => format!("- {} {}", w, w2),
                 2 => format!("    {}", w),
@@ -442,6 +445,13 @@ impl<'a> Gen<'a> {
         }
         let indented = allow_indented && !body.is_empty() && self.rng.chance(1, 5);
         if indented {
+            for l in body.iter_mut() {
+                if l.trim().is_empty() {
+                    l.clear();
+                } else {
+                    *l = l.trim_end().to_string();
+                }
+            }
             // first and last line must be non-blank and the first may not be further indented
             if body[0].is_empty() || body[0].starts_with(' ') {
                 body[0] = self.words.next(self.rng, false);
